@@ -1,3 +1,142 @@
-(* placeholder until the proofs are in place *)
-From Cobra.Core Require Import Model.
-Example C02_placeholder : True. Proof. exact I. Qed.
+(* C02 — model edits do exactly what they document; cross-references stay consistent.
+   This file only states the property theorems and prints their assumptions. *)
+From Coq Require Import ZArith QArith Qcanon List Bool.
+From Cobra.Core Require Import Model Inv Preserve RestoreBase RestoreOps Restore.
+Import ListNotations.
+Open Scope Z_scope.
+
+(* consistency, spelled out: a reaction of the model lists a metabolite iff that metabolite (which is then
+   in the model) lists the reaction (which is then in the model); no zero coefficient is "listed".      *)
+Theorem C02_wf_meaning : forall s, WF s ->
+  (forall r m, rin s r = true -> sto s r m <> q0 -> min s m = true /\ back s m r = true) /\
+  (forall m r, back s m r = true -> min s m = true /\ rin s r = true /\ sto s r m <> q0).
+Proof. intros s H. exact H. Qed.
+Print Assumptions C02_wf_meaning.
+
+Theorem C02_wf_step : forall s o, Inv s -> op_ok s o -> Inv (fst (step s o)) /\ WF (fst (step s o)).
+Proof. intros s o HI Hok. pose proof (step_Inv s o HI Hok) as H. split; [exact H|apply Inv_WF, H]. Qed.
+Print Assumptions C02_wf_step.
+
+Fixpoint ok_run (s : st) (ops : list op) : Prop :=
+  match ops with [] => True | o :: ops' => op_ok s o /\ ok_run (fst (step s o)) ops' end.
+Theorem C02_wf_history : forall ops rs ms, ok_run (init_u rs ms) ops -> WF (run ops (init_u rs ms)).
+Proof.
+  intros ops rs ms. generalize (init_Inv rs ms). generalize (init_u rs ms).
+  induction ops as [|o ops IH]; intros s HI Hok; cbn [run fold_left ok_run] in *.
+  - apply Inv_WF, HI.
+  - destruct Hok as [H1 H2]. apply (IH (fst (step s o))); [apply step_Inv; assumption|exact H2].
+Qed.
+Print Assumptions C02_wf_history.
+
+Theorem C02_wf_with_contexts : forall l s, Inv s -> V s -> ok_items s l -> WF (run_items s l).
+Proof.
+  intros l s HI HV Hok.
+  assert (Hl : Forall good l) by (apply Forall_forall; intros i _; apply all_good).
+  destruct (good_list l Hl s HI HV Hok) as [_ [H _]]. apply Inv_WF, H.
+Qed.
+Print Assumptions C02_wf_with_contexts.
+
+(* ---- documented effect of each edit, and nothing else ---- *)
+
+(* reaction.bounds = (l, u): both bounds set, or ValueError and nothing changed; no other content touched *)
+Theorem C02_set_bounds_effect : forall s r l u,
+  let s' := fst (set_bounds r l u s) in
+  (eb_gt l u = false -> lb s' r = l /\ ub s' r = u) /\
+  (eb_gt l u = true -> snd (set_bounds r l u s) = RaiseValueError \/ (lb s r = l /\ ub s r = u)) /\
+  (eb_gt l u = true -> lb s' = lb s /\ ub s' = ub s) /\
+  (forall r', r' <> r -> lb s' r' = lb s r' /\ ub s' r' = ub s r') /\
+  rin s' = rin s /\ sto s' = sto s /\ min s' = min s /\ back s' = back s.
+Proof.
+  intros s r l u. cbn zeta. unfold set_bounds.
+  destruct (rctx s r && eb_eqb (lb s r) l && eb_eqb (ub s r) u) eqn:Eq.
+  - apply andb_true_iff in Eq as [Eq E2]. apply andb_true_iff in Eq as [_ E1].
+    apply eb_eqb_true in E1, E2. cbn [fst snd]. repeat split; auto.
+  - destruct (eb_gt l u) eqn:Eg; cbn [fst snd].
+    + repeat split; try discriminate; auto; destruct (rctx s r); recs; reflexivity.
+    + rewrite raw_set_bounds_rsb. unfold rsb. destruct (Model.split_bounds l u) as [[? ?] [? ?]]. cbn.
+      repeat split; try discriminate; intros; rewrite ?upd_same, ?upd_other by assumption;
+        destruct (rctx s r); recs; reflexivity.
+Qed.
+Print Assumptions C02_set_bounds_effect.
+
+(* reaction.add_metabolites(l, combine): listed coefficients are added (combine) or replaced; a metabolite
+   new to the model joins it; every other reaction, every bound and the membership of reactions unchanged *)
+Theorem C02_add_metabolites_effect : forall s r l combine rev,
+  let s' := fst (add_st r l combine rev s) in
+  (forall m, sto s' r m = match assoc_q m l with
+                          | Some c => if combine then (sto s r m + c)%Qc else c
+                          | None => sto s r m end) /\
+  (forall r', r' <> r -> sto s' r' = sto s r') /\
+  rin s' = rin s /\ lb s' = lb s /\ ub s' = ub s /\
+  (forall m, min s' m = min s m || (rin s r && memz m (news_of s r l))).
+Proof.
+  intros s r l combine rev. cbn zeta. unfold add_st.
+  match goal with |- context [if ?c then _ else _] => destruct c end; [destruct combine|]; cbn [fst]; recs;
+    (destruct (rin s r); [unfold model_add_mets; cbn; recs; cbn|cbn]);
+    repeat split; intros; rewrite ?upd_same, ?upd_other by assumption; unfold st_after, new_coef;
+      try reflexivity; try (destruct (assoc_q m l); reflexivity); rewrite ?orb_false_r; reflexivity.
+Qed.
+Print Assumptions C02_add_metabolites_effect.
+
+(* model.add_reactions([r]): the reaction joins with its own stoichiometry and bounds; the metabolites it
+   lists are in the model afterwards; no other reaction changes                                         *)
+Theorem C02_add_reactions_effect : forall s r, rin s r = false ->
+  let s' := add_rxn r s in
+  rin s' = upd (rin s) r true /\ sto s' = sto s /\ lb s' = lb s /\ ub s' = ub s /\
+  (forall m, min s' m = min s m || negb (isz (sto s r m))).
+Proof.
+  intros s r Hr. cbn zeta. unfold add_rxn. rewrite Hr. recs. unfold add_rxn_content.
+  destruct (Model.split_bounds (lb s r) (ub s r)) as [[? ?] [? ?]]. cbn. repeat split.
+Qed.
+Print Assumptions C02_add_reactions_effect.
+
+(* model.remove_reactions([r], remove_orphans): the reaction leaves; with remove_orphans exactly the
+   metabolites it listed that no other reaction lists leave too; nothing else changes                  *)
+Theorem C02_remove_reactions_effect : forall s r orphans, rin s r = true ->
+  let s' := remove_rxn r orphans s in
+  rin s' = upd (rin s) r false /\ sto s' = sto s /\ lb s' = lb s /\ ub s' = ub s /\
+  (forall m, min s' m = min s m && negb (orphans && orphaned s r m)) /\
+  (forall m r', r' <> r -> back s' m r' = back s m r').
+Proof.
+  intros s r orphans Hr. cbn zeta. unfold remove_rxn. rewrite Hr. cbn [negb]. recs. unfold remove_rxn_content. cbn.
+  repeat split. intros m r' Hne. destruct (Z.eqb_spec r' r); [contradiction|reflexivity].
+Qed.
+Print Assumptions C02_remove_reactions_effect.
+
+(* model.remove_metabolites([m]): non-destructive - every reaction loses the metabolite and stays;
+   destructive - every reaction listing it leaves the model                                            *)
+Theorem C02_remove_metabolites_effect : forall s m, min s m = true ->
+  (let s' := remove_met_nd m s in
+   min s' = upd (min s) m false /\ rin s' = rin s /\
+   (forall r m', sto s' r m' = if (m' =? m) && back s m r then q0 else sto s r m')) /\
+  (let s' := remove_met_d m s in
+   min s' = upd (min s) m false /\ sto s' = sto s /\
+   (forall r, rin s' r = rin s r && negb (back s m r && rin s r))).
+Proof.
+  intros s m Hm. cbn zeta. unfold remove_met_nd, remove_met_d. rewrite Hm. cbn [negb]. recs.
+  unfold remove_met_nd_content, remove_met_d_content. cbn. repeat split.
+Qed.
+Print Assumptions C02_remove_metabolites_effect.
+
+(* reaction *= c: every coefficient scaled; for c < 0 the bounds are swapped and negated *)
+Theorem C02_imul_effect : forall s r c,
+  let s' := imul r c s in
+  (forall m, sto s' r m = (sto s r m * c)%Qc) /\ (forall r', r' <> r -> sto s' r' = sto s r') /\ rin s' = rin s.
+Proof.
+  intros s r c. cbn zeta. unfold imul.
+  set (s1 := if qlt c q0 then fst (set_bounds r (eb_opp (ub s r)) (eb_opp (lb s r)) s) else s).
+  assert (F1 : rin s1 = rin s /\ sto s1 = sto s).
+  { unfold s1. destruct (qlt c q0); [apply set_bounds_frame|split; reflexivity]. }
+  destruct F1 as [Fr Fs].
+  match goal with |- context [if rctx ?x r then _ else _] => set (s3 := x) end.
+  assert (Hp : forall x, sto (populate r x) = sto x /\ rin (populate r x) = rin x).
+  { intros x. unfold populate, update_variable_bounds. destruct (rin x r); [|split; reflexivity].
+    destruct (Model.split_bounds _ _) as [[? ?] [? ?]]. split; reflexivity. }
+  assert (H3 : sto s3 = upd (sto s) r (fun m => (sto s r m * c)%Qc) /\ rin s3 = rin s).
+  { unfold s3. cbn [rin set_sto].
+    destruct (rin s1 r); [destruct (Hp (set_sto s1 (upd (sto s1) r (fun m => (sto s r m * c)%Qc)))) as [P1 P2]; rewrite P1, P2|];
+      cbn; rewrite Fs, Fr; split; reflexivity. }
+  destruct H3 as [Hs Hr].
+  destruct (rctx s3 r); recs; rewrite Hs, Hr; repeat split; intros; rewrite ?upd_same, ?upd_other by assumption; reflexivity.
+Qed.
+Print Assumptions C02_imul_effect.
